@@ -11,6 +11,8 @@ def instances(tier):
     for p in ([0, 1, 2, 23, 44, 45, 46, 47] if tier == 'quick' else list(range(48))):
         for wc in ([0] if tier == 'quick' else [0, -1]):
             out.append((T, 'VH_C17_friendly_corrupt', [p, wc], {'weight': 10 * (50 - p)}))
+    for pos in ([31] if tier == 'quick' else [29, 30, 31]):   # earlier positions: the CRC16 chain over 33 bytes after a symbolic byte did not finish (pos 0: unknown after 20 min)
+        out.append(('liteclient', 'VH_C17_adnl_roundtrip', [pos], {'weight': 300}))
     out.append((T, 'VH_C17_raw_roundtrip', [], {'weight': 1500}))
     for k in ([1, 2, 63] if tier == 'quick' else [1, 2, 3, 16, 31, 32, 62, 63]):
         out.append((T, 'VH_C17_raw_zero_fill', [k], {'weight': 5}))
@@ -18,9 +20,9 @@ def instances(tier):
 
 
 CHECK = dict(
-    id='C17', pkgs=['ton'], init_pkgs=['std:io', 'std:encoding/base64', 'std:encoding/hex', 'std:strconv', 'std:strings', 'std:github.com/snksoft/crc', 'utils'], instances=instances, opts={'budget_s': 1200},
-    level_text='TL form (LE32 workchain + 32 raw bytes) and TL-B form (ToMsgAddress / AccountIDFromTlb, anycast rewrite for the stated depths) of AccountID round-trip for all addresses and workchains; shard algebra (ParseShardID/Encode/MatchAccountID/MatchBlockID, shardChild/shardParent, convertShardIdent) is executed symbolically for ALL 2^64 shard ids and all account prefixes and compared with loop-written prefix references.  User-friendly form (real base64 codec, utils.Crc16 on output, snksoft/crc XMODEM on input): a fixed account with every value of the last address byte (thorough: every int8 workchain) and the flag combination testnet+non-bounceable (thorough: every combination, symbolic) round-trips; the 48-character text with the character at position p replaced by ANY other base64url digit is rejected; raw text and JSON forms (ToRaw / AccountIDFromRaw / ParseAccountID / MarshalJSON / UnmarshalJSON) round-trip for every workchain of at most 5 decimal digits of both signs, and short raw forms are zero-filled on the left (quick: 8 positions incl. both ends and the checksum characters; thorough: all 48).',
+    id='C17', pkgs=['ton', 'liteclient'], nostop=['internal/stringslite'], init_pkgs=['std:io', 'std:encoding/base64', 'std:encoding/hex', 'std:strconv', 'std:strings', 'std:encoding/base32', 'std:github.com/snksoft/crc', 'utils'], instances=instances, opts={'budget_s': 1200},
+    level_text='TL form (LE32 workchain + 32 raw bytes) and TL-B form (ToMsgAddress / AccountIDFromTlb, anycast rewrite for the stated depths) of AccountID round-trip for all addresses and workchains; shard algebra (ParseShardID/Encode/MatchAccountID/MatchBlockID, shardChild/shardParent, convertShardIdent) is executed symbolically for ALL 2^64 shard ids and all account prefixes and compared with loop-written prefix references.  User-friendly form (real base64 codec, utils.Crc16 on output, snksoft/crc XMODEM on input): a fixed account with every value of the last address byte (thorough: every int8 workchain) and the flag combination testnet+non-bounceable (thorough: every combination, symbolic) round-trips; the 48-character text with the character at position p replaced by ANY other base64url digit is rejected; raw text and JSON forms (ToRaw / AccountIDFromRaw / ParseAccountID / MarshalJSON / UnmarshalJSON) round-trip for every workchain of at most 5 decimal digits of both signs, short raw forms are zero-filled on the left, and the ADNL base32 text (liteclient.ADNLAddressToBase32 / ParseADNLAddress, real base32 codec and CRC16) round-trips for every value of one symbolic byte near the end of the address, with and without the .adnl suffix (quick: 8 positions incl. both ends and the checksum characters; thorough: all 48).',
     level_note='Full 64-bit domain for the shard algebra (no bound other than the types).',
     bounds={'shard ids': 'all 2^64', 'accounts': 'all 256-bit addresses (first 8 bytes are the ones read)'},
-    outside_claim=['user-friendly form for arbitrary 256-bit addresses (the CRC16 of 34 symbolic bytes through two different implementations is out of reach: the account part is fixed except one byte)', 'the + / alphabet on input', 'raw text form for workchains of more than 5 decimal digits', 'ADNL base32 form'],
+    outside_claim=['user-friendly form for arbitrary 256-bit addresses (the CRC16 of 34 symbolic bytes through two different implementations is out of reach: the account part is fixed except one byte)', 'the + / alphabet on input', 'raw text form for workchains of more than 5 decimal digits', 'ADNL base32 form of arbitrary 256-bit addresses (one symbolic byte per instance)'],
 )
